@@ -133,7 +133,8 @@ pub open spec fn rc4_rounds(key: Seq<u8>, data: Seq<u8>, k: int) -> Seq<u8> decr
     if k <= 0 { data } else { rc4(xor_key(key, k as u8), rc4_rounds(key, data, k - 1)) }
 }
 pub open spec fn alg3(owner_pw: Option<Seq<u8>>, user_pw: Seq<u8>, revision: int, length_bits: Option<usize>) -> Seq<u8> {
-    let pw = match owner_pw { Some(p) => p, None => user_pw };
+    // step a: "If there is no owner password, use the user password instead" - an empty string is no password
+    let pw = match owner_pw { Some(p) => if p.len() > 0 { p } else { user_pw }, None => user_pw };
     let h0 = md5(pad32(pw));
     let h = if revision >= 3 { md5_full_rounds(h0, 50) } else { h0 };
     let key = h.subrange(0, key_bytes(revision, length_bits));
@@ -232,6 +233,7 @@ pub proof fn lemma_rounds_undo(key: Seq<u8>, x: Seq<u8>, k: int)
     }
 }
 pub proof fn lemma_alg7_inverts_alg3(owner_pw: Seq<u8>, user_pw: Seq<u8>, revision: int, l: Option<usize>)
+    requires owner_pw.len() > 0
     ensures alg7_user(owner_pw, alg3(Some(owner_pw), user_pw, revision, l), revision, l) =~= pad32(user_pw)
 {
     let key = owner_key(owner_pw, revision, l);
@@ -242,3 +244,5 @@ pub proof fn lemma_alg7_inverts_alg3(owner_pw: Seq<u8>, user_pw: Seq<u8>, revisi
     }
     lemma_rc4_twice(key, pad32(user_pw));
 }
+
+pub fn is_empty_slice(a: &[u8]) -> (r: bool) ensures r == (a@.len() == 0) { a.len() == 0 }
